@@ -463,6 +463,84 @@ def corr_census_runtime(ck: Ck, side: dict, unfresh: tuple = ()) -> None:
 
 
 
+def corr_flows_runtime(ck: Ck, side: dict) -> None:
+    """The translator's ARGUMENT-FLOW census (static) against the real constructors (dynamic): for every census with a
+    run-time probe and every immutable scalar field the census says is carried over by identity (kind KImm, how HShare,
+    flows = [(the field itself, ident)]), each boundary value of the field's run-time type (falsy values, the values a
+    constructor flag would map to, a value no editor writes) is stored in the original, the object is copied, and the
+    field OF THE COPY must be that very value (same type, same repr) — whether or not export shows the field.  A field
+    stored after construction only under `if <test on self>` is probed in the states where the test holds.
+    Guards the translator's specialisation of the constructor (defaults, partial evaluation, properties)."""
+    from harness import c09_util as U
+    census, flows, guards = side.get('census', {}), side.get('flows', {}), side.get('post_guards', {})
+    makers: dict[str, tuple[str, Any]] = {
+        'EntityFixup_copy': ('EntityFixup', lambda o: _copy.copy(o)),
+        'EntityFixup_deepcopy': ('EntityFixup', lambda o: _copy.deepcopy(o)),
+    }
+    for k in ('Camera', 'Cordon', 'VisGroup', 'Solid', 'UVAxis', 'Side', 'Entity', 'EntityGroup', 'Output', 'Keyvalues'):
+        makers[k] = (k, lambda o: o.copy())
+    n = _budget(ck, 5, 40)
+    bad: list[tuple] = []
+    seen: set[tuple[str, str]] = set()
+    skipped: set[tuple[str, str, str]] = set()
+    for lab, rows in census.items():
+        nested = None
+        if lab in makers:
+            kind, mk = makers[lab]
+        elif lab == 'DispVertex_in_Side':
+            kind, mk, nested = 'Side', (lambda o: o.copy()), (lambda o: o._disp_verts[0] if o._disp_verts else None)
+        else:
+            continue        # FixupValue rows: an immutable named tuple, no field can be stored into (census_vs_runtime covers them)
+        todo = [r[0] for r in rows if r[1] == 'KImm' and r[2] == 'HShare' and flows.get(lab, {}).get(r[0]) == [[r[0], 'ident']]]
+        for _ in range(n):
+            r = random.Random(ck.rng.randrange(1 << 30))
+            with warnings.catch_warnings():
+                warnings.simplefilter('ignore')
+                o = U.g_side(r, U.VMF(), r.choice([1, 2])) if nested else U.generate(kind, r, U.VMF())
+                tgt = nested(o) if nested else o
+                if tgt is None:
+                    continue
+                for f in todo:
+                    try:
+                        val = getattr(tgt, f)
+                    except AttributeError:
+                        bad.append((lab, f, 'attribute missing at run time', ''))
+                        continue
+                    if type(val) not in BOUNDARY:
+                        skipped.add((lab, f, type(val).__name__))
+                        continue
+                    for b in BOUNDARY[type(val)]:
+                        try:
+                            setattr(tgt, f, b)
+                        except (AttributeError, TypeError, ValueError):
+                            skipped.add((lab, f, 'read-only'))
+                            break
+                        try:
+                            if not all(eval(g, {'self': tgt, 'isinstance': isinstance, 'list': list}) for g in guards.get(lab, {}).get(f, [])):
+                                continue
+                            c = mk(o)
+                            got = getattr(nested(c) if nested else c, f)
+                        except Exception:
+                            continue      # not a state the object can be in / the guard needs a copy() parameter
+                        finally:
+                            setattr(tgt, f, val)
+                        ck.count('flow_runtime_probes')
+                        seen.add((lab, f))
+                        if type(got) is not type(b) or got != b or repr(got) != repr(b):
+                            bad.append((lab, f, repr(b), repr(got)))
+    uniq = sorted(set(bad))
+    for lab, f in sorted(seen):
+        ck.hist('flow_runtime_field', f'{lab}.{f}')
+    ck.obligation('correspondence:flows_vs_runtime', not uniq,
+                  f'{len(seen)} (census, scalar field) pairs whose flow census says "carried over by identity": each boundary '
+                  f'value stored in the original arrives unchanged in the copy; disagreements (census, field, value stored, '
+                  f'value in the copy): {uniq[:8]}; not probed (run-time type without boundary values / read-only): '
+                  f'{sorted(skipped)[:12]}')
+    ck.extra['flow_runtime_not_probed'] = sorted(skipped)
+    if uniq:
+        ck.tie_broken.append('argument-flow census disagrees with the run-time behaviour of copy(): ' + repr(uniq[:4]))
+
+
 def corr_export_reads(ck: Ck, side: dict, eside: dict) -> None:
     """The translator's export-reads census (static) against the attribute reads traced while the real export runs
     on generated objects (every reachable map object switched to a logging subclass): every data field really read
@@ -1033,6 +1111,7 @@ def run(ck: Ck) -> None:
         cert_cases(ck)
         lap('certificates')
         corr_census_runtime(ck, side, tuple(k for k, v in res.items() if k.startswith('copy_fresh_mutables:') and not v))
+        corr_flows_runtime(ck, side)
         corr_export_reads(ck, side, eside)
         corr_kv_add(ck, side)
         corr_op_census(ck, oside)
@@ -1072,6 +1151,7 @@ def run(ck: Ck) -> None:
         for b in ('kv_add_single', 'kv_add_iter', 'kv_iadd_single', 'kv_iadd_iter'):
             ck.explain(f'instance:{b}_branch_appends_copy')
     if any_key('copy-incomplete:'):
+        ck.explain('correspondence:flows_vs_runtime')
         ck.explain('instance:all_sources_present')
         ck.explain('instance:all_flows_present')
         ck.explain('instance:all_classes_export_ok')
